@@ -401,7 +401,11 @@ func (c *channel) processCommand(ctx context.Context, sender RequestCommandSende
 
 	defer func() {
 		c.processingCmdsMu.Lock()
-		delete(c.processingCmds, reqCmd.ID)
+		// remove only our own registration: once the response was submitted
+		// the id may already have been registered again by another caller
+		if c.processingCmds[reqCmd.ID] == respChan {
+			delete(c.processingCmds, reqCmd.ID)
+		}
 		c.processingCmdsMu.Unlock()
 	}()
 
@@ -432,7 +436,9 @@ func (c *channel) trySubmitCommandResult(respCmd *ResponseCommand) bool {
 	}
 
 	c.processingCmdsMu.Lock()
-	delete(c.processingCmds, respCmd.ID)
+	if c.processingCmds[respCmd.ID] == respChan {
+		delete(c.processingCmds, respCmd.ID)
+	}
 	c.processingCmdsMu.Unlock()
 
 	respChan <- respCmd
